@@ -235,7 +235,7 @@ def bfs(model, events, max_depth, normalise=True, dedupe=True, max_states=None, 
     depth_done = 0
     saturated = False
     capped = None
-    with ctx.Pool(core.NPROC) as pool:
+    with core.WorkerPool(core.NPROC) as pool:
         for depth in range(1, max_depth + 1):
             if not frontier:
                 saturated = True
@@ -306,7 +306,7 @@ def run_histories(model, alphabet, histories, normalise=False, deadline=None):
     done = 0
     violations = []
     capped = None
-    with ctx.Pool(core.NPROC) as pool:
+    with core.WorkerPool(core.NPROC) as pool:
         for hist, n, viol in pool.imap_unordered(_run_hist, histories, chunksize=8):
             transitions += n
             done += 1
